@@ -36,6 +36,8 @@ impl super::MainState {
 
         let mut something_done = false;
         {
+            #[cfg(simple_irc_server_verif)]
+            verif::race_point(5).await;
             let state = self.state.read().await;
 
             for target in HashSet::<&&str>::from_iter(targets.iter()) {
@@ -194,6 +196,8 @@ impl super::MainState {
         {
             // update last activity if something sent
             if something_done {
+                #[cfg(simple_irc_server_verif)]
+                verif::race_point(4).await;
                 let mut state = self.state.write().await;
                 let user = state.users.get_mut(user_nick).unwrap();
                 user.last_activity = SystemTime::now()
